@@ -174,7 +174,7 @@ func gaussJordan(a, x Matrix, b Vector, submatrix []bool) error {
   }
   return nil
 singular:
-  panic("system is computationally singular")
+  return errors.New("system is computationally singular")
 }
 
 func gaussJordanUpperTriangular(a, x Matrix, b Vector, submatrix []bool) error {
@@ -249,7 +249,7 @@ func gaussJordanUpperTriangular(a, x Matrix, b Vector, submatrix []bool) error {
   }
   return nil
 singular:
-  panic("system is computationally singular")
+  return errors.New("system is computationally singular")
 }
 
 /* -------------------------------------------------------------------------- */
